@@ -71,6 +71,7 @@ func (e *Engine) rootAssigns() (rs []assignedRange, os []assignedObj, maps []Val
 				panic(unsupported("assigns %q: %v", a, err))
 			}
 			maps = append(maps, e.evalSpec(ex, se))
+		case strings.HasPrefix(a, "chan("), a == "chans":
 		case strings.HasPrefix(a, "ghost("), strings.HasPrefix(a, "log("):
 		default:
 			panic(unsupported("assigns clause %q", a))
@@ -146,6 +147,8 @@ func (e *Engine) frameFormula(st *State) Term {
 	if !anyMaps {
 		cs = append(cs, e.mapFrame(st, amaps)...)
 	}
+	ach, anyCh := e.rootAssignedChans()
+	cs = append(cs, e.chanFrame(st, ach, anyCh)...)
 	return And(cs...)
 }
 
@@ -189,4 +192,26 @@ func (e *Engine) unchangedAll(se *SpecEnv) Term {
 	}
 	cs = append(cs, e.mapsUnchanged(st, old)...)
 	return And(cs...)
+}
+
+// rootAssignedChans: the channels listed as `assigns chan(c)` (or `assigns chans`: any).
+func (e *Engine) rootAssignedChans() (cs []Term, any bool) {
+	if e.rootC == nil {
+		return
+	}
+	se := &SpecEnv{e: e, st: e.entry, old: e.entry, fr: e.rootFr, vars: e.params, env: e.rootEnv, pkg: e.rootC.Pkg}
+	for _, a := range e.rootC.Assigns {
+		a = strings.TrimSpace(a)
+		if a == "chans" {
+			return nil, true
+		}
+		if strings.HasPrefix(a, "chan(") {
+			ex, err := ParseSpecExpr(strings.TrimSuffix(strings.TrimPrefix(a, "chan("), ")"))
+			if err != nil {
+				panic(unsupported("assigns %q: %v", a, err))
+			}
+			cs = append(cs, e.evalSpec(ex, se).L[0])
+		}
+	}
+	return
 }
